@@ -5,9 +5,11 @@ sys.path.insert(0, os.path.dirname(os.path.dirname(os.path.abspath(__file__))))
 from vlib import *
 
 OVERLAY = {"task/verif_taskmgr_test.go": "task/verif_taskmgr_test.go"}
+OVERLAY_FS = {"fs/verif_taskcallers_test.go": "fs/verif_taskcallers_test.go"}
 INTERNAL = ("TypeOK", "PrioAccount", "SemAccount", "SemBound")
 SITE = "InvokeBackgroundTask"
-FORMULAS = ("Bounded", "NoSelfOverlap", "NoneRunningAtReturn", "MonStartOnlyWhenQuiet", "MonAllReturned", "MonCancelReaches")
+FORMULAS = ("Bounded", "NoSelfOverlap", "NoneRunningAtReturn", "MonStartOnlyWhenQuiet", "MonAllReturned", "MonCancelReaches",
+            "MonCallersBalanced")
 # the monitor evaluates every formula on every recorded state and reports all that are false (TLC stops at the first
 # violated invariant otherwise); TLC still does the deciding, python only reads the VFAIL lines
 MON_REPORT = """
@@ -33,7 +35,7 @@ def monitor(run, trace_path, ov):
     return fails
 
 
-def validate(run, trace_path, conc, period_us, what):
+def validate(run, trace_path, conc, period_us, what, SITE=SITE):
     events = read_ndjson(trace_path)
     if not events:
         raise Inconclusive("no events recorded for " + what)
@@ -59,7 +61,7 @@ def validate(run, trace_path, conc, period_us, what):
     for f, line in fails.items():
         tr, idx = trace_of(line)
         name = {"MonStartOnlyWhenQuiet": "StartOnlyWhenQuiet", "MonAllReturned": "hang:EventuallyCompletes",
-                "MonCancelReaches": "hang:CancelOnPrioritized"}.get(f, f)
+                "MonCancelReaches": "hang:CancelOnPrioritized", "MonCallersBalanced": "CallersBalanced"}.get(f, f)
         run.violation("monitor:%s:%s:%s" % (name, SITE, what),
                       "%s false on the recorded states after event %d (%s) of a %s trace (concurrency %d)" % (
                           name, idx, json.dumps(tr[1][idx - 1]), what, conc),
@@ -121,7 +123,9 @@ def check(run):
                        "free-running seeded executions under -race; non-trivial = a running body was notified of a prioritized "
                        "begin; distinct by hash of the recorded event list")
     run.assumptions += [
-        "context.WithTimeout's timeout is not modelled (drivers use 24h); semaphore FIFO order is abstracted to any waiter",
+        "context.WithTimeout: the deadline is an environment step Timeout(i) of the model (body notices arbitrarily late); drivers give "
+        "some invocations a short real timeout (free run 0.5-4 ms, gated 2 ms whose firing instant is not gated); semaphore FIFO order "
+        "is abstracted to any waiter",
         "the two lock-free reads of the counter in the wait loop are not compared with the model's counter in trace validation",
         "silence period: monotonic timestamps taken inside the hooks (Done before the goroutine is spawned, Decided after the read)",
         "liveness (CancelOnPrioritized, EventuallyCompletes) is checked on the model under weak fairness; on the implementation only "
@@ -147,6 +151,8 @@ def model_stages(run, thorough):
     run.tlc_negctl("TaskMgr", "TaskMgr_mc.cfg", dict(small, RecheckUnderLock="FALSE"), ["StartOnlyWhenQuiet"], drop=INTERNAL)
     run.tlc_negctl("TaskMgr", "TaskMgr_mc.cfg", dict(small, DecrAfterSilence="FALSE"), ["StartOnlyWhenQuiet"], drop=INTERNAL)
     run.tlc_negctl("TaskMgr", "TaskMgr_mc.cfg", dict(small, UseSem="FALSE"), ["Bounded"], drop=INTERNAL)
+    # a select arm <-ctx.Done() that returns without waiting for the body (not in the code)
+    run.tlc_negctl("TaskMgr", "TaskMgr_mc.cfg", dict(small, AwaitBodyOnTimeout="FALSE"), ["Bounded", "NoneRunningAtReturn"], drop=INTERNAL)
     run.tlc_mc("TaskMgr", "TaskMgr_cancel.cfg", None if thorough else {"MaxDo": "1"}, workers=4, timeout=3000)
     negctl_live(run, "TaskMgr_cancel.cfg", {"MaxDo": "1", "NotifyArm": "FALSE"}, "CancelOnPrioritized")
     negctl_live(run, "TaskMgr_live.cfg", {"MaxDo": "1", "BroadcastAll": "FALSE"}, "EventuallyCompletes")
@@ -157,9 +163,11 @@ def binding_stages(run, thorough):
     # G: every edge of the generation graphs, replayed through the gates
     jobs = []
     exhaustive = True
-    gens = [("1inv-wait", {}, 1, 1), ("1inv-nowait", {"WaitBodyOnCancel": "FALSE"}, 1, 1),
-            ("2inv-wait", {"Invs": "{1, 2}", "MaxDo": "1"}, 2, 1),
-            ("2inv-nowait", {"Invs": "{1, 2}", "MaxDo": "1", "WaitBodyOnCancel": "FALSE"}, 2, 1)]
+    # quick: deadlines (Timeout steps) only in the 1-invocation waiting graph; thorough: in every graph
+    tmo = {} if thorough else {"Timeouts": "FALSE"}
+    gens = [("1inv-wait", {}, 1, 1), ("1inv-nowait", dict(tmo, WaitBodyOnCancel="FALSE"), 1, 1),
+            ("2inv-wait", dict(tmo, Invs="{1, 2}", MaxDo="1"), 2, 1),
+            ("2inv-nowait", dict(tmo, Invs="{1, 2}", MaxDo="1", WaitBodyOnCancel="FALSE"), 2, 1)]
     if thorough:
         gens += [("2inv-conc2-wait", {"Invs": "{1, 2}", "MaxDo": "1", "Concurrency": "2"}, 2, 2),
                  ("2inv-conc2-nowait", {"Invs": "{1, 2}", "MaxDo": "1", "Concurrency": "2", "WaitBodyOnCancel": "FALSE"}, 2, 2)]
@@ -215,6 +223,10 @@ def binding_stages(run, thorough):
         validate(run, merged, conc, 100, "gated")
     for conc in (1, 2):
         validate(run, "%s_c%d.ndjson" % (free, conc), conc, period_us, "free-run")
+    # callers: filesystem.Check on all its paths must end every prioritized task it begins (hook events of a real manager)
+    callers = os.path.join(run.scratch, "callers.ndjson")
+    run.go_driver("", "./fs/", OVERLAY_FS, "^TestVerifTaskCallers$", env={"VERIF_CALLERS_OUT": callers}, timeout=1200, race=False)
+    validate(run, callers, 1, 1000, "callers", SITE="fs.Check")
     run.cov["exhaustive"] = exhaustive
 
 
